@@ -704,7 +704,10 @@ def call_builtin(self, name, pos, kw, node, fr):
                 r_ = _arity_of_package_call(self, v, node, fr)
                 return r_ if r_ is not None else self.numpy_call('len', [v], [])
             if pos[0].single_atom() is not None and pos[0].single_atom().kind in ('ite', 'call'):
-                return length(pos[0])
+                r_ = length(pos[0])
+                # only when every alternative has a known length (otherwise len(<conditional value>) stays one quantity)
+                if not any(a_.kind == 'call' and a_.args[0] == 'len' for a_ in T.all_atoms(r_).values()):
+                    return r_
         return self.numpy_call(name, pos, kw)
     if name == 'iter' and len(pos) == 2 and not kw:
         # iter(callable, sentinel): the callable is called once per element -- analyse one call (its events count)
